@@ -255,6 +255,25 @@ struct STypes<'a> {
     #[serde(skip)]
     skipped_marker: std::marker::PhantomData<u8>,
 }
+// serde attributes behind cfg_attr with predicates that are false in this build: rustc drops them
+#[allow(dead_code, unexpected_cfgs)]
+#[derive(serde::Serialize, Default)]
+#[cfg_attr(feature = "c06_gated_off", serde(rename_all = "camelCase"))]
+struct SGated {
+    first_name: u8,
+    #[cfg_attr(any(), serde(rename = "legacyId"))]
+    legacy_id: u8,
+    #[cfg_attr(not(all()), serde(skip))]
+    debug_info: u8,
+}
+#[allow(dead_code, unexpected_cfgs)]
+#[derive(serde::Serialize)]
+#[cfg_attr(all(test, feature = "c06_gated_off"), serde(rename_all = "SCREAMING_SNAKE_CASE"))]
+enum EGated {
+    InProgress,
+    #[cfg_attr(target_os = "c06-none", serde(rename = "fin"))]
+    Done(u8),
+}
 /// wire name of a variant: the string itself, or the single key of the externally tagged object
 fn variant_name<T: serde::Serialize>(v: &T) -> String {
     match serde_json::to_value(v).unwrap() {
@@ -314,6 +333,8 @@ pub fn real_serde(case: &Value) -> Value {
         "types": keys_of_any(&STypes { plain_field: String::new(), marker_a: std::marker::PhantomData, marker_b: core::marker::PhantomData,
             unit_field: (), empty_arr: [], boxed_val: Box::new(String::new()), cow_val: "".into(), str_ref: "", opt_unit: None,
             bytes_vec: vec![], pair_val: (0, String::new()), skipped_marker: std::marker::PhantomData }),
+        "gated_s": keys_of(&SGated::default()),
+        "gated_e": [variant_name(&EGated::InProgress), variant_name(&EGated::Done(1))],
         "fieldsonly": [variant_name(&EFieldsOnly::TaskStarted { to_x: 1 }), variant_name(&EFieldsOnly::Idle)]},
       "enum": {
         "lowercase": lits_of(ELower::all()), "UPPERCASE": lits_of(EUpper::all()), "PascalCase": lits_of(EPascal::all()),
